@@ -341,3 +341,4 @@ H("C15", "html/document", "VxH_C16_paint", reach=["laid-out", "drawn"], bounds="
 H("C04", "html/tree", "VxH_C04_initial_computed", reach=["computed", "recomputed"], bounds="the 18 properties whose initial value needs computing x {root, child}, with solid border / outline / column-rule styles and float: left in force")
 H("C07", "css/validation", "VxH_C07_gradients", reach=["validated", "accepted"], bounds="4 gradient functions x 2 (thorough 4) properties x first argument of 0..4 values over 6 kinds (thorough 13: direction / shape keywords, 45deg, 1px, 10%, 0), then two colour stops", quick={"shards": 6}, thorough={"shards": 14, "maxpaths": 4000000})
 H("C12", "html/layout", "VxH_C12_named_pages", reach=["laid-out", "same-page-name", "page-name-changes"], bounds="two sections each holding one 10px block with page: auto / a / b; a float or absolutely positioned box optionally ending the first section and starting the second; @page a and @page b with their own sizes", quick={"maxsteps": 100000000, "shards": 6})
+H("C13", "html/layout", "VxH_C13_fixed_auto_column", mode="real", reach=["laid-out", "fits", "too-narrow"], bounds="fixed layout, one row of two cells with symbolic widths in [0,150] and one cell without a width; table width in [20,300], border-spacing in [0,20] (all symbolic reals)", quick={"maxsteps": 100000000})
